@@ -4,6 +4,7 @@
 package c05rt
 
 import (
+	"encoding/binary"
 	"context"
 	"bytes"
 	"encoding/json"
@@ -168,7 +169,23 @@ func Random(rng *rand.Rand, t reflect.Type, depth int) reflect.Value {
 	case reflect.Interface:
 		if t == valueIface || t.NumMethod() > 0 && valueIface.Implements(t) {
 			var x value.Value
-			switch rng.Intn(6) {
+			switch rng.Intn(12) {
+			case 6: // float64 (carried opaquely: there is no constructor for it)
+				b := make([]byte, 8)
+				binary.LittleEndian.PutUint64(b, math.Float64bits(float64(rng.Intn(1000))+0.5))
+				x = value.Opaque("d", b)
+			case 7:
+				x = value.Ulong(rng.Uint64())
+			case 8: // (no raw buffer: "r" is not a signature of the grammar, so a raw nested in a structure cannot be described)
+				x = value.String("not-raw")
+			case 9:
+				x = value.Void()
+			case 10: // a tuple (is)
+				b := make([]byte, 4)
+				binary.LittleEndian.PutUint32(b, rng.Uint32())
+				x = value.Opaque("(is)", append(b, 3, 0, 0, 0, 'a', 'b', 'c'))
+			case 11:
+				x = value.Uint(rng.Uint32())
 			case 0:
 				x = value.Int(int32(rng.Uint32()))
 			case 1:
